@@ -278,12 +278,18 @@ def _bound_ok(body, recv, b, is_str, fld):
     return False, "%s = find(.., non-ASCII or non-constant needle) + %d may split a character" % (fld, add)
 
 
+BENIGN_COMBINATOR_RE = re.compile(
+    r"^std::(option::Option|result::Result)::(unwrap_or_else|unwrap_or_default|unwrap_or|map_or|map_or_else|ok_or_else|ok_or|and_then|map|map_err|or_else|or|"
+    r"filter|zip|xor|get_or_insert_with|is_some_and|is_none_or|is_ok_and|is_err_and|inspect|inspect_err|cloned|copied|as_ref|as_mut|as_deref|take|replace)$"
+    r"|^core::bool::(then|then_some)$")
+
+
 def is_panicky_call(t):
     c = t["callee"]
     name = cname(t)
     if not name:
         return "indirect"
-    if name in BENIGN_TRACK_CALLER:
+    if name in BENIGN_TRACK_CALLER or BENIGN_COMBINATOR_RE.search(name):
         return None
     if PANICKY_RE.search(name) or PANICKY_RE.search(rname(t)):
         return "denylist"
@@ -834,6 +840,19 @@ def _rename_witness(crate, body, cs):
                 f = fmt.format_of(args[ni])
                 if f is not None:
                     pieces, fargs = f
+                    # literal tail of the formatted string (constant arguments count as literal text)
+                    tail = ""
+                    for pc in reversed(pieces):
+                        if isinstance(pc, str):
+                            tail = pc + tail
+                        else:
+                            at = strip(fargs[pc[1]][1], mir.VALUE_PRESERVING) if pc[1] < len(fargs) else ("x",)
+                            if at[0] == "const" and isinstance(at[1], str) and fargs[pc[1]][0] == "display" and not pc[2]:
+                                tail = at[1] + tail
+                            else:
+                                break
+                    if tail.endswith(suf[1]):
+                        pieces = list(pieces) + [tail]
                     if pieces and isinstance(pieces[-1], str) and pieces[-1].endswith(suf[1]):
                         return True, "bounded recursion: guarded by `!name.ends_with(%r)` and `arg%d == %s`; the callee receives format!(%r), which ends with %r, so this guard fails there (depth <= 2)" % (
                             suf[1], kind_guard[0], kind_guard[2], fmt.template_s(pieces), suf[1])
